@@ -372,6 +372,8 @@ impl<Aux> Vm<'_, Aux> {
             let instr: Instruction = unsafe { transmute(instr) };
             let src_ptr = *instr_ptr;
             *instr_ptr += 1;
+            #[cfg(feature = "verif-hooks")]
+            crate::verif_hooks::count_dispatch();
             debug!("Executing: {instr:?} instr_ptr: {instr_ptr}");
             match instr {
                 Instruction::InitTable => {
@@ -793,5 +795,47 @@ impl<Aux> Vm<'_, Aux> {
             .push(op(a, b))
             .map_err(|_| ExecutionErrorPayload::Stackoverflow)?;
         Ok(())
+    }
+}
+
+/// Entry points for the out-of-tree verification harnesses (`verif-hooks` feature only).
+#[cfg(feature = "verif-hooks")]
+impl<Aux> Vm<'_, Aux> {
+    /// A VM with the given limits and without the standard library natives
+    pub fn verif_new_small(
+        auxiliary_data: Aux,
+        memory_limit: usize,
+        stack_size: usize,
+        call_stack_size: usize,
+    ) -> Result<Self, ExecutionErrorPayload> {
+        Ok(Self {
+            auxiliary_data,
+            callables: HandleTable::with_capacity(4, Default::default())
+                .map_err(|_| ExecutionErrorPayload::OutOfMemory)?,
+            runtime_data: RuntimeData::new(memory_limit, stack_size, call_stack_size)?,
+            max_instr: 1000,
+            remaining_iters: 0,
+            _m: Default::default(),
+        })
+    }
+
+    /// Runs the interpreter loop on `program` starting at `instr_ptr` with the call stack as it
+    /// is (the caller pushes frames with `RuntimeData::verif_push_frame`). Returns the result
+    /// and the instruction pointer the loop stopped at.
+    pub fn verif_run_from(
+        &mut self,
+        program: &CaoCompiledProgram,
+        instr_ptr: usize,
+    ) -> (ExecutionResult<()>, usize) {
+        self.runtime_data.current_program = program as *const _;
+        let mut ip = instr_ptr;
+        let res = self._run(&mut ip);
+        self.runtime_data.current_program = std::ptr::null();
+        (res, ip)
+    }
+
+    /// Sets the current program without running (for `run_function` from a harness)
+    pub fn verif_set_program(&mut self, program: *const CaoCompiledProgram) {
+        self.runtime_data.current_program = program;
     }
 }
